@@ -692,6 +692,10 @@ func (fr *Frame) callContract(st *State, ct *FuncContract, fn *ssa.Function, sig
 		if r.faults && !r.active(cl.Tags) {
 			continue
 		}
+		if knownOpenAny[ct.Name+"#post#"+cl.Label] {
+			// recorded as failing on the unchanged tree (open known finding): callers must not rely on it
+			continue
+		}
 		g, err := fr.evalBoolEnv(cl.E, env)
 		if err != nil {
 			return nil, fmt.Errorf("ensures %s of %s: %v", cl.Label, ct.Name, err)
